@@ -226,6 +226,8 @@ def run_native(unit):
     mod, fn = _load(unit)
     prof = _Profile()
     results = []
+    import resource
+    rss0 = resource.getrusage(resource.RUSAGE_SELF).ru_maxrss
     for inp in unit["inputs"]:
         sys.setprofile(prof)
         try:
@@ -236,7 +238,8 @@ def run_native(unit):
             sys.setprofile(None)
         results.append(r)
     funcs = sorted(f"{f}:{ln}:{q}" for (f, ln, q) in prof.seen)
-    return {"status": "NATIVE", "results": results, "functions": funcs,
+    rss1 = resource.getrusage(resource.RUSAGE_SELF).ru_maxrss
+    return {"status": "NATIVE", "results": results, "functions": funcs, "maxrss_growth_mb": round((rss1 - rss0) / 1024.0, 1),
             "cex": getattr(mod, "CEX", None)}
 
 
